@@ -112,6 +112,8 @@ def gen_fault(r, deep):
     f['steps'] = r.choice([1, 2, 5, 20, 100])
   if kind == 'full':
     f = {'kind': 'full', 'db': 'logica_home', 'pages': r.choice([0, 1, 2, 3])}
+  if kind == 'busy':
+    f['hold'] = r.choice([1, 1, 2, 3, 4, 6, 100])
   return f
 
 
